@@ -73,6 +73,58 @@ func regRound[N any]() (bad []string) {
 	return bad
 }
 
+type regU[N any] struct{ V string }
+
+func registerU[N any]() {
+	restlicodec.RegisterCustomTyperef(
+		func(t regU[N]) (string, error) { return t.V, nil },
+		func(s string) (regU[N], error) { return regU[N]{V: s}, nil },
+		func(t regU[N]) fnv1a.Hash { return fnv1a.HashString(t.V) },
+		func(a, b regU[N]) bool { return a.V == b.V },
+	)
+}
+
+func knownU[N any]() (ok bool) {
+	defer func() {
+		if p := recover(); p != nil {
+			ok = false
+		}
+	}()
+	w := restlicodec.NewRor2HeaderWriter()
+	return restlicodec.CustomTyperefMarshaler[regU[N]]()(regU[N]{V: "abc"}, w) == nil && w.Finalize() == "abc"
+}
+
+// regAllAtOnce registers distinct types from as many goroutines at the same time: every registration that returned
+// must be known to the codec afterwards (no serial execution loses one).
+func regAllAtOnce() (lost int) {
+	regs := []func(){registerU[[0]byte], registerU[[1]byte], registerU[[2]byte], registerU[[3]byte], registerU[[4]byte], registerU[[5]byte], registerU[[6]byte], registerU[[7]byte],
+		registerU[[8]byte], registerU[[9]byte], registerU[[10]byte], registerU[[11]byte], registerU[[12]byte], registerU[[13]byte], registerU[[14]byte], registerU[[15]byte],
+		registerU[[16]byte], registerU[[17]byte], registerU[[18]byte], registerU[[19]byte], registerU[[20]byte], registerU[[21]byte], registerU[[22]byte], registerU[[23]byte],
+		registerU[[24]byte], registerU[[25]byte], registerU[[26]byte], registerU[[27]byte], registerU[[28]byte], registerU[[29]byte], registerU[[30]byte], registerU[[31]byte]}
+	known := []func() bool{knownU[[0]byte], knownU[[1]byte], knownU[[2]byte], knownU[[3]byte], knownU[[4]byte], knownU[[5]byte], knownU[[6]byte], knownU[[7]byte],
+		knownU[[8]byte], knownU[[9]byte], knownU[[10]byte], knownU[[11]byte], knownU[[12]byte], knownU[[13]byte], knownU[[14]byte], knownU[[15]byte],
+		knownU[[16]byte], knownU[[17]byte], knownU[[18]byte], knownU[[19]byte], knownU[[20]byte], knownU[[21]byte], knownU[[22]byte], knownU[[23]byte],
+		knownU[[24]byte], knownU[[25]byte], knownU[[26]byte], knownU[[27]byte], knownU[[28]byte], knownU[[29]byte], knownU[[30]byte], knownU[[31]byte]}
+	var wg sync.WaitGroup
+	start := make(chan struct{})
+	for _, r := range regs {
+		wg.Add(1)
+		go func(r func()) {
+			defer wg.Done()
+			<-start
+			r()
+		}(r)
+	}
+	close(start)
+	wg.Wait()
+	for _, k := range known {
+		if !k() {
+			lost++
+		}
+	}
+	return lost
+}
+
 // raceRegistry runs one round per fresh type (a type can be registered once per process).
 func raceRegistry() {
 	rounds := []func() []string{
@@ -89,6 +141,10 @@ func raceRegistry() {
 				fmt.Println("REGISTRY-OUTCOME:", b)
 			}
 		}
+	}
+	if lost := regAllAtOnce(); lost > 0 {
+		n++
+		fmt.Printf("REGISTRY-OUTCOME: %d of 32 custom typerefs registered at the same time are unknown to the codec afterwards\n", lost)
 	}
 	fmt.Printf("registry race pass done: %d rounds, %d outcomes no serial execution produces\n", len(rounds), n)
 }
